@@ -1,6 +1,7 @@
 package meta
 
 import (
+	"bytes"
 	"errors"
 	"fmt"
 
@@ -256,17 +257,21 @@ func handleObjectWithAssociation(metaBkt *bbolt.Bucket, diff *CountersDiff, curr
 			obj, err := get(metaCursor, addr, false, true, currEpoch)
 			// Garbage mark should be put irrespective of errors,
 			// especially if the error is SplitInfo.
+			garbKey := mkGarbageKey(id)
 			if err == nil {
-				if inGarbage(metaCursor, id) == statusAvailable {
+				// an object with any mark (redundant one included) is already
+				// accounted as removed, do not count it twice
+				k, _ := metaCursor.Seek(garbKey)
+				if !bytes.Equal(k, garbKey) && inGarbage(metaCursor, id) == statusAvailable {
 					inhumed++
-				}
-				// if object is stored, and it is regular object then update bucket
-				// with container size estimations
-				if obj.Type() == object.TypeRegular {
-					diff.Payload -= int64(obj.PayloadSize())
+					// if object is stored, and it is regular object then update bucket
+					// with container size estimations
+					if obj.Type() == object.TypeRegular {
+						diff.Payload -= int64(obj.PayloadSize())
+					}
 				}
 			}
-			err = metaBkt.Put(mkGarbageKey(id), nil)
+			err = metaBkt.Put(garbKey, nil)
 			if err != nil {
 				return fmt.Errorf("put %s object to garbage bucket: %w", target, err)
 			}
